@@ -2,7 +2,10 @@
 // JSON, the lock program of every method of the types anchored by property C20: the sequence of
 // Lock/RLock/Unlock/RUnlock sites, accesses to receiver fields and to local variables captured by goroutines
 // (Read/Write, ARead/AWrite for `x = append(x, ..)`, SlotWrite for `x[i] = ..`), channel Send/Close and Call
-// of opaque collaborators.  Calls to methods whose body is in the same package are inlined (so a nested RLock
+// of opaque collaborators.  For synchronisation objects that are LOCAL to the function (declared in its body):
+// sync.WaitGroup Add/Done/Wait become WgAddN (added by the spawning function: one per child) / WgAdd1 (added inside
+// the goroutine itself) / WgDone / WgWait, `for .. range ch` becomes RecvLoop and `<-ch` Recv on channels made with
+// make(chan T); a send into a channel made with a capacity is an opaque step.  Calls to methods whose body is in the same package are inlined (so a nested RLock
 // taken through a helper is visible); goroutines started by `go func` / `<group>.Go(func)` become child
 // programs "<name>$go<i>".  Control flow is linearised (every statement in source order, deferred calls at
 // the end).  Whatever cannot be followed is listed under "unknown" of that program - the check then reports
@@ -53,6 +56,8 @@ var targets = []target{
 	{"pkg/event", "EventEmitter", nil},
 	{"pkg/db/diffdb", "Database", nil},
 	{"pkg/consensus/sync", "blockSyncer", []string{"Sync"}},
+	// the P2P handlers that serve chain data while the consensus goroutine changes the chain (the returned closure is inlined)
+	{"pkg/consensus/sync", "Syncer", []string{"HandleRPCEndpointGetLastBlock", "HandleRPCEndpointGetHighestCommonBlock", "HandleRPCEndpointGetBlocksFromID"}},
 }
 
 type pkgInfo struct {
@@ -180,6 +185,8 @@ type frame struct {
 	loop     int
 	nchild   *int
 	last     ast.Stmt // final statement of the function body
+	child    bool              // this frame is the body of a goroutine closure
+	locals   map[string]string // local synchronisation objects of the root function: name -> "wg" | "chan" | "bufchan"
 }
 
 func (f *frame) emit(op, obj string, pos token.Pos) {
@@ -251,6 +258,72 @@ func (f *frame) base(e ast.Expr) (string, bool) {
 	}
 }
 
+// scanLocals finds the synchronisation objects declared inside a function body (closures included): sync.WaitGroup
+// variables and channels made with make(chan T) ("chan") or make(chan T, n) ("bufchan").
+func scanLocals(body *ast.BlockStmt) map[string]string {
+	res := map[string]string{}
+	isWG := func(e ast.Expr) bool {
+		se, ok := e.(*ast.SelectorExpr)
+		return ok && exprText(se.X) == "sync" && se.Sel.Name == "WaitGroup"
+	}
+	kind := func(e ast.Expr) string {
+		switch v := e.(type) {
+		case *ast.CompositeLit:
+			if isWG(v.Type) {
+				return "wg"
+			}
+		case *ast.UnaryExpr:
+			if cl, ok := v.X.(*ast.CompositeLit); ok && v.Op == token.AND && isWG(cl.Type) {
+				return "wg"
+			}
+		case *ast.CallExpr:
+			id, ok := v.Fun.(*ast.Ident)
+			if !ok || len(v.Args) == 0 {
+				return ""
+			}
+			if id.Name == "new" && isWG(v.Args[0]) {
+				return "wg"
+			}
+			if _, isChan := v.Args[0].(*ast.ChanType); isChan && id.Name == "make" {
+				if len(v.Args) > 1 {
+					return "bufchan"
+				}
+				return "chan"
+			}
+		}
+		return ""
+	}
+	if body == nil {
+		return res
+	}
+	ast.Inspect(body, func(n ast.Node) bool {
+		switch s := n.(type) {
+		case *ast.ValueSpec:
+			for i, nm := range s.Names {
+				if s.Type != nil && isWG(s.Type) {
+					res[nm.Name] = "wg"
+				} else if i < len(s.Values) {
+					if k := kind(s.Values[i]); k != "" {
+						res[nm.Name] = k
+					}
+				}
+			}
+		case *ast.AssignStmt:
+			if len(s.Lhs) == len(s.Rhs) {
+				for i, l := range s.Lhs {
+					if id, ok := l.(*ast.Ident); ok {
+						if k := kind(s.Rhs[i]); k != "" {
+							res[id.Name] = k
+						}
+					}
+				}
+			}
+		}
+		return true
+	})
+	return res
+}
+
 func lockOp(call *ast.CallExpr) (string, ast.Expr) {
 	se, ok := call.Fun.(*ast.SelectorExpr)
 	if !ok || len(call.Args) != 0 {
@@ -306,6 +379,22 @@ func (f *frame) call(c *ast.CallExpr, deferred bool) {
 		}
 	case *ast.SelectorExpr:
 		m := fn.Sel.Name
+		if id, ok := fn.X.(*ast.Ident); ok && f.locals[id.Name] == "wg" {
+			obj := "wg:" + f.name + "." + id.Name
+			switch m {
+			case "Add":
+				if f.child {
+					f.emit("WgAdd1", obj, c.Pos()) // registered by the goroutine itself: a Wait may run before it
+				} else {
+					f.emit("WgAddN", obj, c.Pos()) // registered by the spawning function: one per child
+				}
+			case "Done":
+				f.emit("WgDone", obj, c.Pos())
+			case "Wait":
+				f.emit("WgWait", obj, c.Pos())
+			}
+			return
+		}
 		isGo := false
 		for _, a := range c.Args {
 			if lit, ok := a.(*ast.FuncLit); ok && m == "Go" {
@@ -360,7 +449,8 @@ func (f *frame) inline(fd *ast.FuncDecl, typ string, at *ast.CallExpr) {
 	if len(fd.Recv.List[0].Names) == 1 {
 		recv = fd.Recv.List[0].Names[0].Name
 	}
-	g := &frame{x: f.x, prog: f.prog, name: f.name, recv: recv, typ: typ, fn: typ + "." + fd.Name.Name, depth: f.depth + 1, shared: map[string]bool{}, nchild: f.nchild, loop: f.loop}
+	g := &frame{x: f.x, prog: f.prog, name: f.name, recv: recv, typ: typ, fn: typ + "." + fd.Name.Name, depth: f.depth + 1, shared: map[string]bool{}, nchild: f.nchild, loop: f.loop,
+		child: f.child, locals: scanLocals(fd.Body)}
 	g.body(fd.Body)
 }
 
@@ -413,7 +503,7 @@ func (f *frame) spawn(lit *ast.FuncLit, pos token.Pos) {
 		}
 		return true
 	})
-	g := &frame{x: f.x, prog: child, name: f.name, recv: f.recv, typ: f.typ, fn: f.fn, depth: f.depth, shared: shared, nchild: f.nchild}
+	g := &frame{x: f.x, prog: child, name: f.name, recv: f.recv, typ: f.typ, fn: f.fn, depth: f.depth, shared: shared, nchild: f.nchild, child: true, locals: f.locals}
 	g.body(lit.Body)
 }
 
@@ -429,6 +519,11 @@ func (f *frame) expr(e ast.Expr) {
 		case *ast.FuncLit:
 			f.stmts(t.Body.List)
 			return false
+		case *ast.UnaryExpr:
+			if id, ok := t.X.(*ast.Ident); ok && t.Op == token.ARROW && f.locals[id.Name] == "chan" {
+				f.emit("Recv", "chan:"+id.Name, t.Pos())
+				return false
+			}
 		case *ast.SelectorExpr:
 			if v := f.varOf(t); v != "" {
 				f.emit("Read", v, t.Pos())
@@ -529,7 +624,11 @@ func (f *frame) stmt(s ast.Stmt) {
 		}
 	case *ast.SendStmt:
 		f.expr(t.Value)
-		f.emit("Send", "chan:"+exprText(t.Chan), t.Pos())
+		if id, ok := t.Chan.(*ast.Ident); ok && f.locals[id.Name] == "bufchan" {
+			f.emit("Call", "chan:"+id.Name+".send", t.Pos()) // channel with a capacity: the send is not a rendezvous
+		} else {
+			f.emit("Send", "chan:"+exprText(t.Chan), t.Pos())
+		}
 	case *ast.ReturnStmt:
 		for _, r := range t.Results {
 			f.expr(r)
@@ -550,7 +649,11 @@ func (f *frame) stmt(s ast.Stmt) {
 		f.stmt(t.Post)
 		f.loop--
 	case *ast.RangeStmt:
-		f.expr(t.X)
+		if id, ok := t.X.(*ast.Ident); ok && f.locals[id.Name] == "chan" {
+			f.emit("RecvLoop", "chan:"+id.Name, t.Pos()) // receives until the channel is closed
+		} else {
+			f.expr(t.X)
+		}
 		f.loop++
 		f.stmts(t.Body.List)
 		f.loop--
@@ -637,7 +740,7 @@ func main() {
 				recv = fd.Recv.List[0].Names[0].Name
 			}
 			n := 0
-			fr := &frame{x: x, prog: prog, name: name, recv: recv, typ: tg.typ, fn: name, shared: map[string]bool{}, nchild: &n}
+			fr := &frame{x: x, prog: prog, name: name, recv: recv, typ: tg.typ, fn: name, shared: map[string]bool{}, nchild: &n, locals: scanLocals(fd.Body)}
 			fr.body(fd.Body)
 		}
 	}
